@@ -25,10 +25,14 @@ LEVEL = "model_checking"
 ENGINE = "E1"
 TECHNIQUE = ("exhaustive enumeration of all (P,S) programs x deviation-bounded parameter configurations; P@S and its "
              "results() are re-derived from call_Fq on P alone and call_kernel on S alone")
-RULE = ("every (P,S) pair x every combination of <=D dimensions off default (ER mode, beta, P dispersity x2, "
+RULE = ("[dev] every (P,S) pair x every combination of <=D dimensions off default (ER mode, beta, P dispersity x2, "
         "S.radius_effective dispersity, S parameters, P sizes, volfraction, user radius_effective, 2-D, jitter, magnetic P); "
+        "[mesh] P meshes of 101, 132, 11x11, 12x11 points x every effective-radius mode x (1-D, 1-D beta, 2-D); "
+        "[reuse] one kernel object evaluated for A then B, B differing in exactly one setting, both orders; "
         "non-trivial = S(q) differs from 1 by >1e-6 at some q and the result is finite")
 ASSUMPTIONS = [
+    "meshes beyond the 100-point chunk of the DLL driver: P's averages come from single-point evaluations "
+    "(refmodel.weighted_mean), not from call_Fq",
     "call_Fq on P alone (<F>, <F^2>, R_eff, V_shell, V_form/V_shell; decided by C01) and call_kernel on S alone are the reference",
     "scale, background = 1.7, 0.25 throughout; q on 4 fixed points (1-D) / 4 fixed points (2-D)",
     "for mode 0 with a dispersed S.radius_effective the reported radius may be the nominal value or the distribution mean",
@@ -40,9 +44,14 @@ S_MODELS = ["hardsphere", "hayter_msa", "squarewell", "stickyhardsphere"]
 QUICK_P = ["sphere", "cylinder", "core_multi_shell", "hollow_cylinder", "vesicle", "fractal", "pearl_necklace",
            "lamellar", "power_law", "adsorbed_layer", "parallelepiped"]
 SLOW_P = {"pringle": 2, "superball": 3}      # thorough-tier bound for P whose 1-D form factor is a slow numerical integral
+MESH_P_QUICK = ["sphere", "cylinder", "core_multi_shell", "hollow_cylinder", "vesicle", "pearl_necklace"]
+MESH_ALTS = {"1x101": [101], "1x132": [132], "11x11": [11, 11], "12x11": [12, 11]}     # DLL driver chunks at 100
 BOUNDS = {
-    "quick": {"P": "all 74 models that are not structure factors", "S": S_MODELS, "D": 2, "D3_P": QUICK_P},
-    "thorough": {"P": "all 74 models that are not structure factors", "S": S_MODELS, "D": 4, "D_slow_P": SLOW_P},
+    "quick": {"P": "all 74 models that are not structure factors", "S": S_MODELS, "D": 2, "D3_P": QUICK_P,
+              "mesh_P": MESH_P_QUICK, "mesh_S": S_MODELS[:2], "mesh": list(MESH_ALTS), "reuse_P": QUICK_P},
+    "thorough": {"P": "all 74 models that are not structure factors", "S": S_MODELS, "D": 4, "D_slow_P": SLOW_P,
+                 "mesh_P": "every P with a dispersible parameter except the slow ones", "mesh_S": S_MODELS,
+                 "mesh": list(MESH_ALTS), "reuse_P": "all"},
 }
 CASE_TIMEOUT = 300
 
@@ -119,6 +128,71 @@ def _dims(ctx, pname, sname):
     return dims
 
 
+def _default_cfg(ctx, p, s):
+    return {d[0]: d[1] for d in _dims(ctx, p, s)}
+
+
+def _mesh_cases(ctx, p, s):
+    """dispersity meshes beyond the 100-point chunk of the DLL driver x every effective-radius mode x (1-D, 1-D beta, 2-D)"""
+    pinfo = build.info(p)
+    dn = disp_names(pinfo)
+    if not dn:
+        return
+    nmodes = len(pinfo.radius_effective_modes) if pinfo.radius_effective_modes is not None else 0
+    variants = [("1d", 0)] + ([("1d", 1)] if pinfo.have_Fq else []) + [("2d", 0)]
+    for alt, lengths in MESH_ALTS.items():
+        if len(lengths) > len(dn) or len(lengths) > pinfo.parameters.max_pd:
+            continue
+        for mode in range(0, nmodes + 1):
+            for dim, beta in variants:
+                cfg = _default_cfg(ctx, p, s)
+                cfg.update(mesh=alt, dim=dim)
+                if nmodes:
+                    cfg["er_mode"] = mode
+                if pinfo.have_Fq:
+                    cfg["beta"] = beta
+                yield {"kind": "mesh", "P": p, "S": s, "cfg": cfg}
+
+
+REUSE_CHANGES = ["P1", "Pnom", "pd1", "vf", "Spars", "reff", "er_mode", "beta"]
+
+
+def _reuse_cases(ctx, p, s):
+    """one kernel evaluated for A then B; B differs from A in exactly one setting (both orders)"""
+    dims = {d[0]: d for d in _dims(ctx, p, s)}
+    base = _default_cfg(ctx, p, s)
+    pinfo = build.info(p)
+    starts = [dict(base)]
+    if "er_mode" in dims:
+        starts.append(dict(base, er_mode=0))
+        if len(dims["er_mode"][2]) > 1:
+            starts.append(dict(base, er_mode=dims["er_mode"][2][1]))
+    if "beta" in dims:
+        starts.append(dict(base, beta=1))
+    if "pd1" in dims:
+        starts.append(dict(base, pd1=dims["pd1"][2][0]))
+    starts.append(dict(base, dim="2d"))
+    for a in starts:
+        for ch in REUSE_CHANGES:
+            b = dict(a)
+            if ch == "P1":
+                if not disp_names(pinfo):
+                    continue
+                b["P1"] = ctx.factor(4)
+            elif ch == "er_mode":
+                if ch not in dims:
+                    continue
+                b[ch] = 1 if a[ch] != 1 else (2 if 2 in dims[ch][2] else 0)
+            elif ch not in dims:
+                continue
+            else:
+                b[ch] = dims[ch][2][0] if a[ch] == dims[ch][1] else dims[ch][1]
+            if b.get("beta") and b["dim"] == "2d":
+                continue
+            yield {"kind": "reuse", "P": p, "S": s, "change": ch, "A": a, "cfg": b}
+            yield {"kind": "reuse", "P": p, "S": s, "change": ch, "A": b, "cfg": a}
+
+
 def cases(ctx):
     out = []
     for p in p_models(ctx):
@@ -129,6 +203,10 @@ def cases(ctx):
         for s in S_MODELS:
             for k, c in deviations(_dims(ctx, p, s), D):
                 out.append({"P": p, "S": s, "dev": k, "cfg": c})
+            if (p in MESH_P_QUICK and s in S_MODELS[:2]) if ctx.quick else (p not in SLOW_P):
+                out.extend(_mesh_cases(ctx, p, s))
+            if p in QUICK_P or not ctx.quick:
+                out.extend(_reuse_cases(ctx, p, s))
     return out
 
 
@@ -184,9 +262,28 @@ def _p_defaults(info, factor):
 
 
 def run_case(case, ctx):
-    from sasmodels.direct_model import call_kernel, call_Fq
+    from sasmodels.direct_model import call_kernel
     r = R()
-    pname, sname, cfg = case["P"], case["S"], case["cfg"]
+    kind = case.get("kind", "dev")
+    if kind != "reuse":
+        return _judge(r, case["P"], case["S"], case["cfg"])
+    # one kernel object, evaluated for A and then for B
+    a_cfg, b_cfg = case["A"], case["cfg"]
+    if a_cfg["dim"] != b_cfg["dim"]:
+        raise HarnessError("reuse pair must share the q vectors")
+    k_ps = build.model(case["P"] + "@" + case["S"]).make_kernel(_q(b_cfg["dim"]))
+    pars_a = _pars(case["P"], case["S"], a_cfg)["pars"]
+    try:
+        call_kernel(k_ps, dict(pars_a))
+    except Exception:  # noqa - the first evaluation is judged by the ordinary cases; only its after-effects matter here
+        pass
+    shown = {k: v for k, v in pars_a.items() if k_ps.info.parameters.defaults.get(k) != v}
+    return _judge(r, case["P"], case["S"], b_cfg, k_ps=k_ps,
+                  reuse=(case["change"], "same kernel object evaluated first with non-default pars=%s, then: " % shown))
+
+
+def _pars(pname, sname, cfg):
+    """the P@S parameter set of a configuration and everything the oracle needs to know about it"""
     expr = pname + "@" + sname
     dim = cfg["dim"]
     pinfo, sinfo = build.info(pname), build.info(sname)
@@ -198,11 +295,16 @@ def run_case(case, ctx):
     have_er = modes is not None
     mode = int(cfg.get("er_mode", 0)) if have_er else 0
     beta = int(cfg.get("beta", 0)) if pinfo.have_Fq else 0
-    fk = {"model": expr}
     br = []
 
     # ---- parameters of P (own names)
     ppars = _p_defaults(pinfo, cfg.get("Pnom", 1.0))
+    dn = disp_names(pinfo)
+    if cfg.get("P1", 1.0) != 1.0:
+        par = pinfo.parameters[dn[0]] if dn[0] in pinfo.parameters else None
+        v = ppars[dn[0]] * cfg["P1"]
+        lo, hi = par.limits if par is not None else (0, np.inf)
+        ppars[dn[0]] = v if lo <= v <= hi else ppars[dn[0]]
     if p_has_vf:
         ppars["volfraction"] = pinfo.parameters["volfraction"].default * cfg["vf"]
     pd = {}
@@ -213,6 +315,12 @@ def run_case(case, ctx):
             br.append("P-dispersity")
     if cfg.get("pd1") and cfg.get("pd2"):
         br.append("P-dispersity-2")
+    spec = {}        # explicit (type, n, width, nsigmas) per parameter for the single-point reference mean
+    if cfg.get("mesh"):
+        pd = {}
+        for nm, n, (t, w) in zip(dn, MESH_ALTS[cfg["mesh"]], (("gaussian", 0.15), ("gaussian", 0.2))):
+            pd.update({nm + "_pd": w, nm + "_pd_n": n, nm + "_pd_type": t, nm + "_pd_nsigma": 2.5})
+            spec[nm] = (t, n, w, 2.5)
     if cfg.get("opd"):
         pd.update({"theta_pd": 10.0, "theta_pd_n": 3, "theta_pd_type": "gaussian", "theta_pd_nsigma": 2.0})
         if dim == "2d":
@@ -260,8 +368,24 @@ def run_case(case, ctx):
     unknown = [k for k in pars if k not in psinfo.parameters.defaults and "_pd" not in k]
     if unknown:
         raise HarnessError("harness built unknown P@S parameters %r for %s" % (unknown, expr))
+    return locals()
 
-    k_ps = ps_model.make_kernel(_q(dim))
+
+def _judge(r, pname, sname, cfg, k_ps=None, reuse=None):
+    from sasmodels.direct_model import call_kernel, call_Fq
+    st = _pars(pname, sname, cfg)
+    expr, dim, pinfo, ps_model = st["expr"], st["dim"], st["pinfo"], st["ps_model"]
+    p_has_vf, have_er, mode, beta = st["p_has_vf"], st["have_er"], st["mode"], st["beta"]
+    ppars, pd, mag, spars, vf, user_reff, s_pd = (st[k] for k in ("ppars", "pd", "mag", "spars", "vf", "user_reff", "s_pd"))
+    pars, desc, br, spec = st["pars"], st["desc"], st["br"], st["spec"]
+    fk = {"model": expr}
+    if reuse:
+        fk["reuse"] = reuse[0]
+        desc = reuse[1] + desc
+        br.append("reuse")
+        br.append("reuse:" + reuse[0])
+    if k_ps is None:
+        k_ps = ps_model.make_kernel(_q(dim))
     want_refusal = bool(beta and dim == "2d")
     try:
         impl = np.array(call_kernel(k_ps, dict(pars)), float)
@@ -282,7 +406,18 @@ def run_case(case, ctx):
     fq_pars.update(pd)
     fq_pars.update(mag)
     fq_pars["radius_effective_mode"] = mode
-    F1, F2, reff_p, vshell, vratio = call_Fq(k_p, fq_pars)
+    if spec:
+        # meshes beyond one driver chunk: P's averages from SINGLE-POINT evaluations (no chunked accumulation)
+        disp = {nm: refmodel.par_dist(pinfo.parameters[nm] if nm in pinfo.parameters else _call_par(pinfo, nm),
+                                      t, n, w, ns, ppars[nm]) for nm, (t, n, w, ns) in spec.items()}
+        wm = refmodel.weighted_mean(k_p, dict(ppars, scale=1.0, background=0.0), disp, 0.0, mode=mode)
+        F1, F2, reff_p, vshell, vratio = wm["F1"], wm["F2"], wm["reff"], wm["vshell"], wm["vratio"]
+        npts = wm["npoints"]
+        br.append("mesh>100" if npts > 100 else "mesh<=100")
+        if npts > 100 and mode > 0:
+            br.append("mesh>100-modeP" + ("-Fq1d" if (pinfo.have_Fq and dim == "1d") else ""))
+    else:
+        F1, F2, reff_p, vshell, vratio = call_Fq(k_p, fq_pars)
     F2 = np.array(F2, float)
     F1 = None if F1 is None else np.array(F1, float)
     # ---- S alone
@@ -325,6 +460,10 @@ def run_case(case, ctx):
         br.append("volfraction-in-P")
     if vratio != 1.0:
         br.append("hollow-ratio")
+        if reuse and mode == 0:
+            br.append("reuse-hollow-mode0")
+    if reuse and mode > 0 and reuse[0] in ("P1", "Pnom", "pd1"):
+        br.append("reuse-P-changed-modeP")
     if is_py(pname):
         br.append("python-P")
     if dim == "2d":
@@ -406,7 +545,21 @@ def run_case(case, ctx):
     return r
 
 
+def _call_par(info, name):
+    for p in info.parameters.call_parameters:
+        if p.name == name:
+            return p
+    raise HarnessError("no parameter %s" % name)
+
+
 def finish(ctx, report):
+    report.require("mesh>100-modeP-Fq1d", 50, "P mesh beyond the 100-point driver chunk, R_eff from P, <F>/<F^2> kernel, 1-D")
+    report.require("mesh>100-modeP", 100, "P mesh beyond the 100-point driver chunk, R_eff from P")
+    report.require("reuse", 500, "second evaluation of one kernel object")
+    report.require("reuse-P-changed-modeP", 50, "P size/dispersity changed between evaluations, R_eff from P")
+    report.require("reuse-hollow-mode0", 20, "hollow P at mode 0 re-evaluated")
+    for ch in REUSE_CHANGES:
+        report.require("reuse:" + ch, 20, "re-evaluation after a change of " + ch)
     report.require("results-checked", 100, "results() compared")
     report.require("beta", 50, "beta approximation")
     report.require("beta-2d-refused", 10, "beta in 2-D refused")
